@@ -283,6 +283,9 @@ func genC16() *rapid.Generator[c16Case] {
 func allDevs() []Dev {
 	var out []Dev
 	for m := 0; m < 128; m++ {
+		if m&(1|2|4|64) != 0 {
+			continue // deviations E, A, C and Z were repaired in the repository (fix: commits): they no longer excuse anything
+		}
 		out = append(out, Dev{E: m&1 != 0, A: m&2 != 0, C: m&4 != 0, S: m&8 != 0, F: m&16 != 0, M: m&32 != 0, Z: m&64 != 0})
 	}
 	sort.SliceStable(out, func(i, j int) bool { return len(out[i].String()) < len(out[j].String()) })
